@@ -792,6 +792,7 @@ func (ex *Exec) havocFieldRegions(pkg *types.Package, regs []string, who string)
 		c.havocKey(ex.cur, k)
 		nw := ex.cur.m[k]
 		a := c.fresh("a")
+		c.bound[a] = true
 		var in []Term
 		for _, id := range all[k] {
 			in = append(in, eq(app("ftag", a), fmt.Sprint(id)))
@@ -1016,6 +1017,7 @@ func (ex *Exec) appendB(cc *ssa.CallCommon, r Term) Val {
 		arr := c.declConst(c.fresh("app"), arrSort(bvSort(64), so))
 		res.Arr = append(res.Arr, arr)
 		i := c.fresh("i")
+		c.bound[i] = true
 		c.assume(fmt.Sprintf("(forall ((%s (_ BitVec 64))) (! %s :pattern ((select %s %s))))", i,
 			and(imp(and(app("bvsle", bvLit(64, 0), i), app("bvslt", i, s.Len)),
 				eq(app("select", arr, i), app("select", s.Arr[k], app("bvadd", s.Off, i)))),
